@@ -113,6 +113,15 @@ Theorem C15_limit_nonempty_subsequence :
 Proof. exact limit_nonempty_subsequence_lemma. Qed.
 Print Assumptions C15_limit_nonempty_subsequence.
 
+(* EXACTLY: of every run of consecutive empty lines the first N are kept unaltered and the rest elided (`limit_spec`, written
+   independently of the code) -- the bound and keeps-non-empty statements above are corollaries; a limiter eliding every
+   empty line would satisfy those but not this. *)
+Theorem C15_limit_exact :
+  forall (N : Z) (ls : list line),
+    (0 <= N)%Z -> limit_lines (LimitEmptyLines_init N) ls = limit_spec N 0 ls.
+Proof. exact limit_lines_exact. Qed.
+Print Assumptions C15_limit_exact.
+
 (* boundary: the property quantifies over N >= 0; a negative limit (argparse accepts one) elides every line *)
 Theorem C15_limit_negative_deletes_all :
   forall (N : Z) (ls : list line),
